@@ -1,5 +1,5 @@
 (* Model/Lookup.v — the lookup helpers of the runtime template, loop for loop.
-   _vlookup, _match, _xmatch (search modes 1 and -1), _index, _address.get_col. *)
+   _vlookup, _match, _xmatch (all four search modes, _binary_search included), _index, _address.get_col. *)
 Require Import X2P.Base.Prelude X2P.Base.F64 X2P.Base.PyCmp X2P.Base.PyType X2P.Base.PyNum.
 Open Scope Z_scope.
 
@@ -74,11 +74,40 @@ Definition pmatch (lv : val) (arr : list val) (mt : Z) : res val :=
   else if 0 <? mt then match_scan_loop OLe lv lvt arr 0 NA
   else match_scan_loop OGe lv lvt arr 0 NA.
 
-(* ------------------------------------------------------------------ _xmatch (linear modes) *)
+(* ------------------------------------------------------------------ _binary_search: returns (exact, next_smallest, next_largest) *)
+Definition key_of_row (row : val) : res val := do r <- as_list row; py_index r 0.
+Fixpoint bs_loop (fuel : nat) (arr : list val) (lv : val) (reverse : bool) (first last ns nl : Z) : res (Z * Z * Z) :=
+  match fuel with
+  | O => Exc OutOfFuel
+  | S f =>
+      if last <? first then Ok (-1, ns, nl) else
+      let mid := (last + first) / 2 in
+      do row <- py_index arr mid; do k <- key_of_row row;
+      do left <- py_cmp (if reverse then OGt else OLt) k lv;
+      do right <- py_cmp (if reverse then OLt else OGt) k lv;
+      if left then bs_loop f arr lv reverse (mid + 1) last (if reverse then ns else mid) (if reverse then mid else nl)
+      else if right then bs_loop f arr lv reverse first (mid - 1) (if reverse then mid else ns) (if reverse then nl else mid)
+      else Ok (mid, mid, mid)
+  end.
+Definition binary_search (arr : list val) (lv : val) (reverse : bool) : res (Z * Z * Z) :=
+  let last := Z.of_nat (List.length arr) - 1 in
+  do r <- bs_loop (S (List.length arr)) arr lv reverse 0 last (if reverse then last else 0) (if reverse then 0 else last);
+  let '(exact, ns, nl) := r in
+  do rs <- py_index arr ns; do ks <- key_of_row rs; do g <- py_cmp OGt ks lv;
+  let ns' := if g then -1 else ns in
+  do rl <- py_index arr nl; do kl <- key_of_row rl; do l <- py_cmp OLt kl lv;
+  let nl' := if l then -1 else nl in
+  Ok (exact, ns', nl').
+
+(* ------------------------------------------------------------------ _xmatch *)
 Definition xmatch (lv : val) (arr : list val) (mm sm : Z) : res val :=
   if sm =? 1 then pmatch lv arr mm
   else if sm =? -1 then pmatch lv (rev arr) mm
-  else if (sm =? 2) || (sm =? -2) then Exc OtherExc      (* binary search modes: not modelled *)
+  else if (sm =? 2) || (sm =? -2) then
+    do r <- binary_search arr lv (sm =? -2);
+    let '(exact, ns, nl) := r in
+    let index := if mm =? -1 then ns else if mm =? 1 then nl else exact in
+    Ok (if index =? -1 then NA else VInt (index + 1))
   else Ok (VStr "#ERROR!").
 
 (* ------------------------------------------------------------------ _index *)
